@@ -68,12 +68,35 @@ func goEnv() []string {
 
 func goBin() string { return getenv("VERIF_GO", "go1.26.8") }
 
+// devModfile: development aid only (never set by a registered command). With
+// VERIF_DEV_MODFILE the library is taken from the tree that go.mod file's
+// replace directive names (a scratch worktree carrying a seeded change)
+// instead of /repo, so several seeded changes can be tried at once without
+// touching /repo. Evidence and replays then go to VERIF_DEV_OUT.
+func devModfile() []string {
+	if m := os.Getenv("VERIF_DEV_MODFILE"); m != "" {
+		return []string{"-modfile", m}
+	}
+
+	return nil
+}
+
+func outDir(name string) string {
+	if d := os.Getenv("VERIF_DEV_OUT"); d != "" {
+		return filepath.Join(d, name)
+	}
+
+	return filepath.Join(root, name)
+}
+
 func build(runDir string, race bool) (rlapp, tests string, err error) {
 	harness := filepath.Join(root, "harness")
 	rlapp = filepath.Join(runDir, "rlapp")
 	tests = filepath.Join(runDir, "checks.test")
 
 	args := []string{"build", "-tags", "verif", "-o", rlapp}
+	args = append(args, devModfile()...)
+
 	if race {
 		args = append(args, "-race")
 	}
@@ -87,7 +110,8 @@ func build(runDir string, race bool) (rlapp, tests string, err error) {
 		return "", "", fmt.Errorf("building rlapp: %v\n%s", e, out)
 	}
 
-	cmd = exec.Command(goBin(), "test", "-c", "-tags", "verif", "-o", tests, "./checks")
+	targs := append([]string{"test", "-c", "-tags", "verif", "-o", tests}, devModfile()...)
+	cmd = exec.Command(goBin(), append(targs, "./checks")...)
 	cmd.Dir, cmd.Env = harness, goEnv()
 
 	if out, e := cmd.CombinedOutput(); e != nil {
@@ -202,7 +226,7 @@ func run(id, tier string) int {
 		}
 	}
 
-	replays := filepath.Join(root, "replays")
+	replays := outDir("replays")
 	os.MkdirAll(replays, 0o755)
 
 	statsBase := filepath.Join(runDir, "stats")
@@ -568,7 +592,7 @@ func mergeEvidence(cfg propCfg, tier string, sd int, statsBase string, wall floa
 }
 
 func writeEvidence(id string, ev map[string]any) {
-	dir := filepath.Join(root, "evidence")
+	dir := outDir("evidence")
 	os.MkdirAll(dir, 0o755)
 
 	buf, _ := json.MarshalIndent(ev, "", " ")
